@@ -218,33 +218,39 @@ MoveImpl(b) ==
         \* history variables only when loops are detected: without them a livelock is a cycle of the state graph
         /\ cyc' = IF DetectLoop THEN [cyc EXCEPT !.seen = @ \cup {<<st, fs, nx>>}, !.moves = @ + n] ELSE cyc
 
-\* proposed repair: the lowest free slots are the targets, the highest vectors move first, and a vector only
-\* moves to a lower slot; an iteration that relocates nothing ends compactChunk
-MoveFixedPlan(b) ==
+\* proposed repair (the smallest change that makes a cycle terminate; see the report of C18): compactChunk sorts the
+\* batch by slot, highest first, takes the LOWEST free slots as targets (TakeLowestFreeSlots: sorts the free list
+\* descending and cuts the targets off its end; never fresh slots), hands back every target that is not below its
+\* vector, and stops when nothing can move down.  Progress measure: the sum of the used slot numbers.
+FixedPlan(b) ==
     LET n    == Len(b)
-        srcS == {st[b[i] + 1] : i \in 1..n}
-        src  == [i \in 1..n |-> SortAsc(srcS)[n + 1 - i]]            \* descending
-        free == SortAsc(Range(fs))
-        k    == Min(n, Len(free))
-    IN  {i \in 1..k : free[i] < src[i]}
+        srcA == SortAsc({st[b[i] + 1] : i \in 1..n})
+        src  == [i \in 1..n |-> srcA[n + 1 - i]]                     \* descending
+        asc  == SortAsc(Range(fs))
+        nf   == Len(fs)
+        k    == Min(n, nf)
+        rest == [i \in 1..(nf - k) |-> asc[nf + 1 - i]]              \* free list sorted descending, targets cut off
+        mv   == {i \in 1..k : asc[i] < src[i]}
+        un   == {i \in 1..k : asc[i] >= src[i]}
+    IN  [src |-> src, free |-> asc, mv |-> mv,
+         fs1 |-> rest \o [j \in 1..Cardinality(un) |-> asc[SortAsc(un)[j]]]]
+
 MoveFixed(b) ==
-    LET n    == Len(b)
-        srcS == {st[b[i] + 1] : i \in 1..n}
-        src  == [i \in 1..n |-> SortAsc(srcS)[n + 1 - i]]
-        free == SortAsc(Range(fs))
-        mv   == MoveFixedPlan(b)
-        tgt(s) == free[CHOOSE i \in mv : src[i] = s]
-        moved(s) == \E i \in mv : src[i] = s
-        used == {free[i] : i \in mv}
+    LET p    == FixedPlan(b)
+        mv   == p.mv
+        tgt(s) == p.free[CHOOSE i \in mv : p.src[i] = s]
+        moved(s) == \E i \in mv : p.src[i] = s
+        used == {p.free[i] : i \in mv}
     IN  /\ st' = [k \in 1..Len(st) |-> IF st[k] # U /\ moved(st[k]) THEN tgt(st[k]) ELSE st[k]]
         /\ mem' = [s \in 1..Len(mem) |-> IF (s - 1) \in used
-                                         THEN mem[src[CHOOSE i \in mv : free[i] = s - 1] + 1] ELSE mem[s]]
-        /\ fs' = SelectSeq(fs, LAMBDA s : s \notin used) \o [j \in 1..Cardinality(mv) |-> src[SortAsc(mv)[j]]]
+                                         THEN mem[p.src[CHOOSE i \in mv : p.free[i] = s - 1] + 1] ELSE mem[s]]
+        /\ fs' = p.fs1 \o [j \in 1..Cardinality(mv) |-> p.src[SortAsc(mv)[j]]]
         /\ cyc' = IF DetectLoop THEN [cyc EXCEPT !.moves = @ + Cardinality(mv)] ELSE cyc
         /\ UNCHANGED <<nch, nx>>
 
-ChunkDone ==
-    LET d == Drop(nch, fs, mem, st)
+\* compactChunk returned: tryDropEmptyChunks, next chunk of the snapshot taken at the start of the cycle
+ChunkDone(f) ==
+    LET d == Drop(nch, f, mem, st)
     IN  /\ nch' = d[1] /\ fs' = d[2] /\ mem' = d[3]
         /\ cyc' = [cyc EXCEPT !.todo = Tail(@), !.seen = {}]
         /\ UNCHANGED <<st, nx>>
@@ -257,8 +263,10 @@ CompactStep ==
             /\ last' = "done"
             /\ UNCHANGED <<st, fs, nx, nch, mem>>
        ELSE LET b == Batch(Head(cyc.todo))
-            IN  IF b = <<>> \/ (Policy = "fixed" /\ MoveFixedPlan(b) = {})
-                THEN ChunkDone /\ last' = last
+            IN  IF b = <<>>
+                THEN ChunkDone(fs) /\ last' = last
+                ELSE IF Policy = "fixed" /\ FixedPlan(b).mv = {}
+                THEN ChunkDone(FixedPlan(b).fs1) /\ last' = last
                 ELSE IF DetectLoop /\ <<st, fs, nx>> \in cyc.seen
                 THEN /\ cyc' = NoCyc
                      /\ last' = "diverged"
@@ -302,7 +310,9 @@ Spec == Init /\ [][Next]_vars
 SpecLive == Init /\ [][Next]_vars /\ WF_vars(CompactStep)
 
 Bound == nx <= MaxChunks * SPC /\ nch <= MaxChunks
-View == <<st, fs, nx, nch, mem, val, ver, saved, cyc, last, rd, bad>>
+\* the history is not part of the state identity, its LENGTH is: the bound MaxOps is then exact (every history of at
+\* most MaxOps operations is explored, whichever path reaches an allocator state first) and state counts are reproducible
+View == <<st, fs, nx, nch, mem, val, ver, saved, cyc, last, rd, bad, Len(ops)>>
 
 -----------------------------------------------------------------------------
 (* requirements *)
